@@ -1461,7 +1461,10 @@ func (e *Enc) encodeNext(fr *Frame, t *ssa.Next, st *State, reach Term) *State {
 	e.B.assume(implies(and(reach, ok), fmt.Sprintf("(and (select (select %s %s) %s) (not (select %s %s)))", dom, m, k, vis, k)))
 	qk := e.B.freshName("qk")
 	e.B.assume(implies(and(reach, not(ok)), fmt.Sprintf("(forall ((%s %s)) (! (=> (select (select %s %s) %s) (select %s %s)) :pattern ((select %s %s))))", qk, ks, dom, m, qk, vis, qk, vis, qk)))
-	e.set(st, it.visited, stateSorts[it.visited], ite(ok, fmt.Sprintf("(store %s %s true)", vis, k), vis))
+	// a store with a conditional *value* rather than an ite between two arrays:
+	// reads of the new set then reduce to reads of the old one by the array
+	// theory alone, which is what lets quantified facts about the old set fire
+	e.set(st, it.visited, stateSorts[it.visited], fmt.Sprintf("(store %s %s (or %s (select %s %s)))", vis, k, ok, vis, k))
 	v := e.B.define(fr.vname(t)+".v", e.B.sortOf(mt.Elem()), fmt.Sprintf("(select (select %s %s) %s)", val, m, k))
 	e.assumeWF(v, mt.Elem(), st)
 	fr.vals[t] = Val{Tup: []Val{{T: ok, Typ: types.Typ[types.Bool]}, {T: k, Typ: mt.Key()}, {T: v, Typ: mt.Elem()}}, Typ: t.Type()}
